@@ -430,21 +430,27 @@ def fourier_probe(ctx, rng, n_cfg, n_seeds):
             hs.append(v * r * m.len_scale)
         H = m.isometrize(np.array(hs).T)              # (dim, 4): Fourier works on isometrized positions
         target = np.array([float(m.cov_spatial(np.array(h).reshape(dim, 1))[0]) for h in hs])
-        errs = []
-        sums = None
+        errs, bounds = [], []
         for M in (8, 16, 32, 64) if dim == 1 else (8, 16, 32):
             g = Fourier(m, period=period, mode_no=[M] * dim, seed=1)
             w = np.asarray(g._spectrum_factor) ** 2
             sums = (w[None, :] * np.cos(H.T @ np.asarray(g._modes))).sum(axis=1)
             errs.append(float(np.abs(sums - target).max()))
+            # spectral mass outside the largest ball |k| <= k_cut covered by the mode grid: the truncation error of the
+            # Riemann sum is at most this tail (the aliasing term sum_n C(h + n L) is < 1e-5 for L = 14 len_scale)
+            modes = np.asarray(g._modes)
+            k_cut = float(min(modes[d].max() for d in range(dim)))
+            bounds.append(float(m.var * (1.0 - m.spectral_rad_cdf(k_cut))) if m.has_cdf else float("inf"))
             ctx.count(("fourier-riemann", kind, dim, M), hist=dict(fourier_class=kind, fourier_dim=dim))
-        case = dict(meta, period=period, lags=[list(map(float, h)) for h in hs], target=target.tolist(), errs=errs)
-        # discretisation error shrinks with the number of modes (allow equality at the rounding floor) and ends small
+        case = dict(meta, period=period, lags=[list(map(float, h)) for h in hs], target=target.tolist(), errs=errs, tail_bounds=bounds)
+        # discretisation error shrinks with the number of modes (equality allowed at the rounding floor) and stays below
+        # the spectral tail mass + 1% of the variance
         floor = 1e-9 * m.var
         shrinking = all(errs[i + 1] <= errs[i] * 1.0000001 + floor for i in range(len(errs) - 1))
-        final_tol = (0.02 if kind != "Exponential" else 0.08) * m.var
-        if not shrinking or errs[-1] > final_tol:
-            ctx.violation("probe: Fourier discretisation", "Riemann-sum covariance error does not shrink with mode_no: %s" % errs,
+        bounded = all(e <= bd * 1.05 + 0.01 * m.var for e, bd in zip(errs, bounds))
+        if not shrinking or not bounded:
+            ctx.violation("probe: Fourier discretisation",
+                          "Riemann-sum covariance error %s vs spectral tail bounds %s (must shrink with mode_no and stay below the tail mass)" % (errs, bounds),
                           case, key="fourier-riemann:%s:dim=%d" % (kind, dim))
         # ensemble over seeds with a small grid
         M = 8
